@@ -1,6 +1,7 @@
-(* C10, the long brace forms: the replace chain of rewrite_text turns {bold} {/bold} {italic} {/italic}
-   {underline} {/underline} into the angle forms and leaves everything else alone, so a payload that uses them
-   is read like the same payload written with <bold> ... *)
+(* C10, the brace forms: the replace chain of rewrite_text turns {bold} {/bold} {italic} {/italic} {underline}
+   {/underline} {b} {/b} {i} {/i} {u} {/u} into the angle forms and leaves everything else alone, so a payload that
+   uses them is read like the same payload written with <bold> ... <b> ...; together with Tags.v this gives the
+   statements of Properties/C10.v for the whole grammar. *)
 From TT Require Import Base.Prelude Base.SrtTypes Gen.SrtTables Model.SrtReader Spec.SrtCueSpec
   Proofs.C10.Lines Proofs.C10.Text Proofs.C10.Roundtrip Proofs.C10.NoFinalEol Proofs.C10.Font Proofs.C10.Refs Proofs.C10.Tags.
 Local Open Scope Z_scope.
@@ -19,111 +20,135 @@ Proof.
   cbn [length]. rewrite Nat.sub_succ, Nat.sub_0_r. rewrite replace_skip. reflexivity.
 Qed.
 
-(* ------------------------------------------------------------------ texts as tokens: characters and long brace tags *)
-Inductive btok := BC (c : Z) | BB (k : tagk) (closing : bool).
-Definition bname (k : tagk) : text := match k with KB => t_bold | KI => t_italic | KU => t_underline end.
-Definition render1 (t : btok) : text := match t with BC c => [c] | BB k cl => brace cl (bname k) end.
+(* ------------------------------------------------------------------ texts as tokens: characters and brace tags *)
+Inductive btok := BC (c : Z) | BB (k : tagk) (lg : bool) (closing : bool).
+Definition bname (k : tagk) (lg : bool) : text :=
+  match k, lg with
+  | KB, true => t_bold | KI, true => t_italic | KU, true => t_underline
+  | KB, false => t_b | KI, false => t_i | KU, false => t_u
+  end.
+Definition render1 (t : btok) : text := match t with BC c => [c] | BB k lg cl => brace cl (bname k lg) end.
 Definition render (ts : list btok) : text := flat_map render1 ts.
-Definition okc (t : btok) : Prop := match t with BC c => c <> 123 | BB _ _ => True end.
+Definition okc (t : btok) : Prop := match t with BC c => c <> 123 | BB _ _ _ => True end.
 
-Definition same_tag (k : tagk) (cl : bool) (k' : tagk) (cl' : bool) : bool :=
-  match k, k' with KB, KB | KI, KI | KU, KU => Bool.eqb cl cl' | _, _ => false end.
-Definition subst1 (k : tagk) (cl : bool) (t : btok) : list btok :=
+Definition same_tag (k : tagk) (lg cl : bool) (k' : tagk) (lg' cl' : bool) : bool :=
+  tagk_eqb k k' && Bool.eqb lg lg' && Bool.eqb cl cl'.
+Definition subst1 (k : tagk) (lg cl : bool) (t : btok) : list btok :=
   match t with
-  | BB k' cl' => if same_tag k cl k' cl' then map BC (angle cl (bname k)) else [t]
+  | BB k' lg' cl' => if same_tag k lg cl k' lg' cl' then map BC (angle cl (bname k lg)) else [t]
   | BC _ => [t]
   end.
-Definition subst (k : tagk) (cl : bool) (ts : list btok) : list btok := flat_map (subst1 k cl) ts.
+Definition subst (k : tagk) (lg cl : bool) (ts : list btok) : list btok := flat_map (subst1 k lg cl) ts.
 
 Lemma render_chars s : render (map BC s) = s.
 Proof. induction s as [|c s IH]; [reflexivity|]. cbn [map render flat_map render1 app]. fold (render (map BC s)). rewrite IH. reflexivity. Qed.
 Lemma render_app a b : render (a ++ b) = render a ++ render b.
 Proof. unfold render. apply flat_map_app. Qed.
 
-Lemma replace_miss k cl k' cl' rest : same_tag k cl k' cl' = false ->
-  replace_go (brace cl (bname k)) (angle cl (bname k)) O (brace cl' (bname k') ++ rest) =
-  brace cl' (bname k') ++ replace_go (brace cl (bname k)) (angle cl (bname k)) O rest.
-Proof. intro H. destruct k, cl, k', cl'; try discriminate; reflexivity. Qed.
+Lemma replace_miss k lg cl k' lg' cl' rest : same_tag k lg cl k' lg' cl' = false ->
+  replace_go (brace cl (bname k lg)) (angle cl (bname k lg)) O (brace cl' (bname k' lg') ++ rest) =
+  brace cl' (bname k' lg') ++ replace_go (brace cl (bname k lg)) (angle cl (bname k lg)) O rest.
+Proof. intro H. destruct k, lg, cl, k', lg', cl'; try discriminate; reflexivity. Qed.
 
-Lemma brace_is_cons cl k : exists p, brace cl (bname k) = 123 :: p.
+Lemma brace_is_cons cl k lg : exists p, brace cl (bname k lg) = 123 :: p.
 Proof. eexists. reflexivity. Qed.
 
-Lemma replace_tokens k cl ts : Forall okc ts ->
-  replace (brace cl (bname k)) (angle cl (bname k)) (render ts) = render (subst k cl ts).
+Lemma replace_tokens k lg cl ts : Forall okc ts ->
+  replace (brace cl (bname k lg)) (angle cl (bname k lg)) (render ts) = render (subst k lg cl ts).
 Proof.
   unfold replace. induction 1 as [|t ts Ht _ IH]; [reflexivity|].
-  cbn [render flat_map subst]. fold (render ts). fold (subst k cl ts). rewrite render_app.
-  destruct t as [c|k' cl'].
-  - cbn [render1 subst1 app okc] in *. destruct (brace_is_cons cl k) as (p & E). rewrite E.
+  cbn [render flat_map subst]. fold (render ts). fold (subst k lg cl ts). rewrite render_app.
+  destruct t as [c|k' lg' cl'].
+  - cbn [render1 subst1 app okc] in *. destruct (brace_is_cons cl k lg) as (p & E). rewrite E.
     cbn [replace_go prefixb]. replace (123 =? c) with false by lia. cbn [andb]. rewrite <- E. rewrite IH. reflexivity.
-  - cbn [render1 subst1]. destruct (same_tag k cl k' cl') eqn:S.
-    + assert (k' = k /\ cl' = cl) as [-> ->] by (destruct k, k', cl, cl'; try discriminate; auto).
-      destruct (brace_is_cons cl k) as (p & E). rewrite E. rewrite replace_hit. rewrite <- E. rewrite IH.
+  - cbn [render1 subst1]. destruct (same_tag k lg cl k' lg' cl') eqn:S.
+    + assert (k' = k /\ lg' = lg /\ cl' = cl) as (-> & -> & ->) by (destruct k, k', lg, lg', cl, cl'; try discriminate; auto).
+      destruct (brace_is_cons cl k lg) as (p & E). rewrite E. rewrite replace_hit. rewrite <- E. rewrite IH.
       rewrite render_chars. reflexivity.
     + rewrite replace_miss by auto. rewrite IH. cbn [render flat_map render1]. rewrite app_nil_r. reflexivity.
 Qed.
 
-Lemma subst_ok k cl ts : Forall okc ts -> Forall okc (subst k cl ts).
+Lemma subst_ok k lg cl ts : Forall okc ts -> Forall okc (subst k lg cl ts).
 Proof.
   induction 1 as [|t ts Ht _ IH]; [constructor|]. cbn [subst flat_map]. apply Forall_app. split; [|exact IH].
-  destruct t as [c|k' cl']; cbn [subst1]; [repeat constructor; auto|].
-  destruct (same_tag k cl k' cl'); [|repeat constructor].
-  destruct k, cl; repeat constructor; cbn; lia.
+  destruct t as [c|k' lg' cl']; cbn [subst1]; [repeat constructor; auto|].
+  destruct (same_tag k lg cl k' lg' cl'); [|repeat constructor].
+  destruct k, lg, cl; repeat constructor; cbn; lia.
 Qed.
 
-(* the six replacements, in the order of rewrite_text *)
-Definition subst6 (ts : list btok) : list btok :=
-  subst KU true (subst KU false (subst KI true (subst KI false (subst KB true (subst KB false ts))))).
-Definition final1 (t : btok) : text := match t with BC c => [c] | BB k cl => angle cl (bname k) end.
+(* the twelve replacements, in the order of rewrite_text *)
+Definition subst6 (lg : bool) (ts : list btok) : list btok :=
+  subst KU lg true (subst KU lg false (subst KI lg true (subst KI lg false (subst KB lg true (subst KB lg false ts))))).
+Definition subst12 (ts : list btok) : list btok := subst6 false (subst6 true ts).
+Definition final1 (t : btok) : text := match t with BC c => [c] | BB k lg cl => angle cl (bname k lg) end.
 
-Lemma subst_app k cl a b : subst k cl (a ++ b) = subst k cl a ++ subst k cl b.
+Lemma subst_app k lg cl a b : subst k lg cl (a ++ b) = subst k lg cl a ++ subst k lg cl b.
 Proof. unfold subst. apply flat_map_app. Qed.
-Lemma subst6_cons t ts : subst6 (t :: ts) = subst6 [t] ++ subst6 ts.
-Proof. unfold subst6. change (t :: ts) with ([t] ++ ts). rewrite !subst_app. reflexivity. Qed.
-Lemma subst6_one t : render (subst6 [t]) = final1 t.
-Proof. destruct t as [c|k cl]; [reflexivity|]. destruct k, cl; reflexivity. Qed.
-Lemma render_subst6 ts : render (subst6 ts) = flat_map final1 ts.
+Lemma subst6_app lg a b : subst6 lg (a ++ b) = subst6 lg a ++ subst6 lg b.
+Proof. unfold subst6. rewrite !subst_app. reflexivity. Qed.
+Lemma subst12_cons t ts : subst12 (t :: ts) = subst12 [t] ++ subst12 ts.
+Proof. unfold subst12. change (t :: ts) with ([t] ++ ts). rewrite !subst6_app. reflexivity. Qed.
+Lemma subst12_one t : render (subst12 [t]) = final1 t.
+Proof. destruct t as [c|k lg cl]; [reflexivity|]. destruct k, lg, cl; reflexivity. Qed.
+Lemma render_subst12 ts : render (subst12 ts) = flat_map final1 ts.
 Proof.
-  induction ts as [|t ts IH]; [reflexivity|]. rewrite subst6_cons, render_app, subst6_one, IH. reflexivity.
+  induction ts as [|t ts IH]; [reflexivity|]. rewrite subst12_cons, render_app, subst12_one, IH. reflexivity.
 Qed.
+Lemma subst6_ok lg ts : Forall okc ts -> Forall okc (subst6 lg ts).
+Proof. intro H. unfold subst6. auto 10 using subst_ok. Qed.
 
-Lemma rw_tokens ts : Forall okc ts -> has_sub [92;110;92;114] (render ts) = false ->
-  rw (render ts) = flat_map final1 ts.
+Lemma rw_subst6 lg ts : Forall okc ts ->
+  replace (brace true (bname KU lg)) (angle true (bname KU lg))
+   (replace (brace false (bname KU lg)) (angle false (bname KU lg))
+    (replace (brace true (bname KI lg)) (angle true (bname KI lg))
+     (replace (brace false (bname KI lg)) (angle false (bname KI lg))
+      (replace (brace true (bname KB lg)) (angle true (bname KB lg))
+       (replace (brace false (bname KB lg)) (angle false (bname KB lg)) (render ts)))))) = render (subst6 lg ts).
 Proof.
-  intros H B. unfold rw. rewrite (replace_id _ _ _ B).
-  change (brace false t_bold) with (brace false (bname KB)). change (angle false t_bold) with (angle false (bname KB)).
-  change (brace true t_bold) with (brace true (bname KB)). change (angle true t_bold) with (angle true (bname KB)).
-  change (brace false t_italic) with (brace false (bname KI)). change (angle false t_italic) with (angle false (bname KI)).
-  change (brace true t_italic) with (brace true (bname KI)). change (angle true t_italic) with (angle true (bname KI)).
-  change (brace false t_underline) with (brace false (bname KU)). change (angle false t_underline) with (angle false (bname KU)).
-  change (brace true t_underline) with (brace true (bname KU)). change (angle true t_underline) with (angle true (bname KU)).
+  intro H. unfold subst6.
   rewrite replace_tokens by auto.
   rewrite replace_tokens by auto using subst_ok.
   rewrite replace_tokens by auto using subst_ok.
   rewrite replace_tokens by auto using subst_ok.
   rewrite replace_tokens by auto 7 using subst_ok.
   rewrite replace_tokens by auto 8 using subst_ok.
-  apply render_subst6.
+  reflexivity.
+Qed.
+
+Lemma rw_tokens ts : Forall okc ts -> no_cr (render ts) -> rw (render ts) = flat_map final1 ts.
+Proof.
+  intros H B. unfold rw. rewrite (replace_id _ _ _ (has_sub_lfcr _ B)).
+  change t_bold with (bname KB true). change t_italic with (bname KI true). change t_underline with (bname KU true).
+  change t_b with (bname KB false). change t_i with (bname KI false). change t_u with (bname KU false).
+  rewrite rw_subst6 by auto. rewrite rw_subst6 by auto using subst6_ok.
+  apply render_subst12.
 Qed.
 
 (* ------------------------------------------------------------------ payloads as tokens *)
-Definition angleify_syn (sy : syn) : syn := match sy with BraceLong => AngleLong | _ => sy end.
+Definition angleify_syn (sy : syn) : syn := match sy with BraceLong => AngleLong | BraceShort => AngleShort | _ => sy end.
 Fixpoint angleify (n : node) : node :=
   match n with
   | NTag k sy body => NTag k (angleify_syn sy) ((fix go (l : list node) : list node := match l with [] => [] | x :: l' => angleify x :: go l' end) body)
   | NFont c q body => NFont c q ((fix go (l : list node) : list node := match l with [] => [] | x :: l' => angleify x :: go l' end) body)
+  | NStray k sy => NStray k (angleify_syn sy)
   | _ => n
   end.
 Definition angleify_list (l : list node) : list node := map angleify l.
+Definition ctx_map (ctx : option (tagk * syn)) : option (tagk * syn) :=
+  match ctx with Some (k, sy) => Some (k, angleify_syn sy) | None => None end.
 
 Fixpoint btoks (n : node) : list btok :=
   match n with
   | NTag k BraceLong body =>
-      BB k false :: (fix go (l : list node) : list btok := match l with [] => [] | x :: l' => btoks x ++ go l' end) body ++ [BB k true]
+      BB k true false :: (fix go (l : list node) : list btok := match l with [] => [] | x :: l' => btoks x ++ go l' end) body ++ [BB k true true]
+  | NTag k BraceShort body =>
+      BB k false false :: (fix go (l : list node) : list btok := match l with [] => [] | x :: l' => btoks x ++ go l' end) body ++ [BB k false true]
   | NTag k sy body =>
       map BC (open_tag k sy) ++ (fix go (l : list node) : list btok := match l with [] => [] | x :: l' => btoks x ++ go l' end) body ++ map BC (close_tag k sy)
   | NFont c q body =>
       map BC (open_font c q) ++ (fix go (l : list node) : list btok := match l with [] => [] | x :: l' => btoks x ++ go l' end) body ++ map BC close_font
+  | NStray k BraceLong => [BB k true true]
+  | NStray k BraceShort => [BB k false true]
   | _ => map BC (print_node n)
   end.
 Definition btoks_list (l : list node) : list btok := flat_map btoks l.
@@ -135,10 +160,6 @@ Proof. reflexivity. Qed.
 Lemma btoks_inner body :
   (fix go (l : list node) : list btok := match l with [] => [] | x :: l' => btoks x ++ go l' end) body = btoks_list body.
 Proof. induction body as [|x l IH]; [reflexivity|]. unfold btoks_list. cbn [flat_map]. fold (btoks_list l). rewrite <- IH. reflexivity. Qed.
-Lemma markup_tag k sy body : markup_node (NTag k sy body) = negb (match sy with BraceShort => true | _ => false end) && forallb markup_node body.
-Proof. reflexivity. Qed.
-Lemma markup_font c q body : markup_node (NFont c q body) = forallb markup_node body.
-Proof. reflexivity. Qed.
 
 Lemma okc_chars s : lacks 123 s -> Forall okc (map BC s).
 Proof.
@@ -148,62 +169,83 @@ Qed.
 Lemma flat_final_chars s : flat_map final1 (map BC s) = s.
 Proof. induction s as [|c s IH]; [reflexivity|]. cbn [map flat_map final1 app]. rewrite IH. reflexivity. Qed.
 
-Lemma open_brace_long k : open_tag k BraceLong = brace false (bname k) /\ close_tag k BraceLong = brace true (bname k) /\
-  open_tag k AngleLong = angle false (bname k) /\ close_tag k AngleLong = angle true (bname k).
+Lemma open_brace_forms k : 
+  open_tag k BraceLong = brace false (bname k true) /\ close_tag k BraceLong = brace true (bname k true) /\
+  open_tag k AngleLong = angle false (bname k true) /\ close_tag k AngleLong = angle true (bname k true) /\
+  open_tag k BraceShort = brace false (bname k false) /\ close_tag k BraceShort = brace true (bname k false) /\
+  open_tag k AngleShort = angle false (bname k false) /\ close_tag k AngleShort = angle true (bname k false).
 Proof. destruct k; repeat split. Qed.
 
-(* the printed payload is the rendering of its tokens; the tokens are free of stray '{'; after the six
+Lemma same_name_angleify k sy k' sy' : same_name k (angleify_syn sy) k' (angleify_syn sy') = same_name k sy k' sy'.
+Proof. destruct sy, sy'; reflexivity. Qed.
+
+(* the printed payload is the rendering of its tokens; the tokens are free of stray '{'; after the twelve
    replacements the rendering is the printed form of the angle-syntax payload; which is an angle payload with
-   the same meaning *)
-Lemma markup_tokens : forall p, forallb markup_node p = true -> forallb wf_node p = true ->
+   the same meaning, and in which the closers that close nothing still close nothing *)
+Lemma all_tokens : forall p, forallb wf_node p = true ->
   print_nodes p = render (btoks_list p) /\ Forall okc (btoks_list p) /\
   flat_map final1 (btoks_list p) = print_nodes (angleify_list p) /\
   forallb angle_node (angleify_list p) = true /\ forallb wf_node (angleify_list p) = true /\
   (forall s, items_list s (angleify_list p) = items_list s p) /\
+  (forall ctx, forallb (stray_ok (ctx_map ctx)) (angleify_list p) = forallb (stray_ok ctx) p) /\
   no_cr (print_nodes p).
 Proof.
   apply (nodes_ind2
-    (fun n => markup_node n = true -> wf_node n = true ->
+    (fun n => wf_node n = true ->
        print_node n = render (btoks n) /\ Forall okc (btoks n) /\ flat_map final1 (btoks n) = print_node (angleify n) /\
        angle_node (angleify n) = true /\ wf_node (angleify n) = true /\ (forall s, items s (angleify n) = items s n) /\
+       (forall ctx, stray_ok (ctx_map ctx) (angleify n) = stray_ok ctx n) /\
        no_cr (print_node n))
-    (fun p => forallb markup_node p = true -> forallb wf_node p = true ->
+    (fun p => forallb wf_node p = true ->
        print_nodes p = render (btoks_list p) /\ Forall okc (btoks_list p) /\
        flat_map final1 (btoks_list p) = print_nodes (angleify_list p) /\
        forallb angle_node (angleify_list p) = true /\ forallb wf_node (angleify_list p) = true /\
-       (forall s, items_list s (angleify_list p) = items_list s p) /\ no_cr (print_nodes p))).
-  - (* NChar *) intros c _ W. cbn [wf_node] in W. cbn [btoks angleify print_node map].
+       (forall s, items_list s (angleify_list p) = items_list s p) /\
+       (forall ctx, forallb (stray_ok (ctx_map ctx)) (angleify_list p) = forallb (stray_ok ctx) p) /\
+       no_cr (print_nodes p))).
+  - (* NChar *) intros c W. cbn [wf_node] in W. cbn [btoks angleify print_node map].
     repeat split; auto. + repeat constructor. cbn. unfold plain_char in W. lia.
     + unfold no_cr. cbn [forallb]. unfold plain_char in W. rewrite andb_true_r. lia.
-  - (* NRef *) intros r _ W. cbn [wf_node] in W. destruct (cref_chars r W) as (_ & A & B & _).
+  - (* NRef *) intros r W. cbn [wf_node] in W. destruct (cref_chars r W) as (_ & A & B & _).
     cbn [btoks angleify print_node]. rewrite render_chars, flat_final_chars. repeat split; auto using okc_chars.
-  - (* NBreak *) intros _ _. cbn [btoks angleify print_node map]. repeat split; auto. repeat constructor. cbn. lia.
-  - (* NTag *) intros k sy body IH Hm Hw. rewrite markup_tag in Hm. apply andb_true_iff in Hm as [Hs Hb].
-    rewrite wf_tag in Hw. destruct (IH Hb Hw) as (P1 & P2 & P3 & P4 & P5 & P6 & P7). clear IH.
+  - (* NBreak *) intros _. cbn [btoks angleify print_node map]. repeat split; auto. repeat constructor. cbn. lia.
+  - (* NTag *) intros k sy body IH Hw.
+    rewrite wf_tag in Hw. destruct (IH Hw) as (P1 & P2 & P3 & P4 & P5 & P6 & P8 & P7). clear IH.
     rewrite angleify_tag, print_tag, print_tag, angle_tag, wf_tag, P5.
-    destruct (open_brace_long k) as (O1 & O2 & O3 & O4).
+    destruct (open_brace_forms k) as (O1 & O2 & O3 & O4 & O5 & O6 & O7 & O8).
     assert (IT : forall s, items s (NTag k (angleify_syn sy) (angleify_list body)) = items s (NTag k sy body)).
     { intro s. rewrite !items_tag. apply P6. }
-    destruct sy; try discriminate; cbn [btoks angleify_syn is_brace negb andb] in *; rewrite btoks_inner.
+    assert (ST : forall ctx, stray_ok (ctx_map ctx) (NTag k (angleify_syn sy) (angleify_list body)) = stray_ok ctx (NTag k sy body)).
+    { intro ctx. rewrite !stray_tag. apply (P8 (Some (k, sy))). }
+    destruct sy; cbn [btoks angleify_syn is_brace negb andb] in *; rewrite btoks_inner.
     1-3: (rewrite !render_app, !render_chars, !flat_map_app, !flat_final_chars, <- P1, P3;
           match goal with |- context [open_tag ?k0 ?sy] =>
             assert (O : lacks 123 (open_tag k0 sy) /\ no_cr (open_tag k0 sy) /\ lacks 123 (close_tag k0 sy) /\ no_cr (close_tag k0 sy))
               by (destruct k0; repeat split) end;
           destruct O as (Q1 & Q2 & Q3 & Q4);
           split; [reflexivity|]; split; [repeat (apply Forall_app; split); auto using okc_chars|];
-          split; [reflexivity|]; split; [exact P4|]; split; [reflexivity|]; split; [exact IT|];
+          split; [reflexivity|]; split; [exact P4|]; split; [reflexivity|]; split; [exact IT|]; split; [exact ST|];
           repeat (first [assumption | apply no_cr_app])).
-    (* BraceLong *)
-    change (BB k false :: btoks_list body ++ [BB k true]) with ([BB k false] ++ btoks_list body ++ [BB k true]).
-    rewrite !render_app, !flat_map_app. cbn [render flat_map render1 final1]. rewrite !app_nil_r.
-    fold (render (btoks_list body)). rewrite <- P1, P3, O1, O2, O3, O4.
-    assert (Q : no_cr (brace false (bname k)) /\ no_cr (brace true (bname k))) by (destruct k; split; reflexivity).
-    destruct Q as [Q1 Q2].
-    repeat split; auto.
-    + repeat (apply Forall_app; split); auto; repeat constructor.
-    + repeat (first [assumption | apply no_cr_app]).
-  - (* NFont *) intros c q body IH Hm Hw. rewrite markup_font in Hm. rewrite wf_font in Hw. apply andb_true_iff in Hw as [Wc Hw].
-    destruct (IH Hm Hw) as (P1 & P2 & P3 & P4 & P5 & P6 & P7). clear IH.
+    + (* BraceLong *)
+      change (BB k true false :: btoks_list body ++ [BB k true true]) with ([BB k true false] ++ btoks_list body ++ [BB k true true]).
+      rewrite !render_app, !flat_map_app. cbn [render flat_map render1 final1]. rewrite !app_nil_r.
+      fold (render (btoks_list body)). rewrite <- P1, P3, O1, O2, O3, O4.
+      assert (Q : no_cr (brace false (bname k true)) /\ no_cr (brace true (bname k true))) by (destruct k; split; reflexivity).
+      destruct Q as [Q1 Q2].
+      repeat split; auto.
+      * repeat (apply Forall_app; split); auto; repeat constructor.
+      * repeat (first [assumption | apply no_cr_app]).
+    + (* BraceShort *)
+      change (BB k false false :: btoks_list body ++ [BB k false true]) with ([BB k false false] ++ btoks_list body ++ [BB k false true]).
+      rewrite !render_app, !flat_map_app. cbn [render flat_map render1 final1]. rewrite !app_nil_r.
+      fold (render (btoks_list body)). rewrite <- P1, P3, O5, O6, O7, O8.
+      assert (Q : no_cr (brace false (bname k false)) /\ no_cr (brace true (bname k false))) by (destruct k; split; reflexivity).
+      destruct Q as [Q1 Q2].
+      repeat split; auto.
+      * repeat (apply Forall_app; split); auto; repeat constructor.
+      * repeat (first [assumption | apply no_cr_app]).
+  - (* NFont *) intros c q body IH Hw. rewrite wf_font in Hw. apply andb_true_iff in Hw as [Wc Hw].
+    destruct (IH Hw) as (P1 & P2 & P3 & P4 & P5 & P6 & P8 & P7). clear IH.
     rewrite angleify_font, print_font, print_font, angle_font, wf_font, P5, Wc.
     cbn [btoks]. rewrite btoks_inner.
     rewrite !render_app, !render_chars, !flat_map_app, !flat_final_chars, <- P1, P3.
@@ -212,121 +254,80 @@ Proof.
     repeat split; auto.
     + repeat (apply Forall_app; split); auto using okc_chars.
     + intro s. rewrite !items_font. apply P6.
+    + intro ctx. rewrite !stray_font. apply (P8 None).
     + repeat (first [assumption | apply no_cr_app]).
-  - intros k sy H. discriminate.
-  - (* nil *) intros _ _. repeat split; auto. constructor.
-  - (* cons *) intros x l IHx IHl Hm Hw. cbn [forallb] in *.
-    apply andb_true_iff in Hm as [Hm1 Hm2]. apply andb_true_iff in Hw as [Hw1 Hw2].
-    destruct (IHx Hm1 Hw1) as (A1 & A2 & A3 & A4 & A5 & A6 & A7).
-    destruct (IHl Hm2 Hw2) as (B1 & B2 & B3 & B4 & B5 & B6 & B7).
+  - (* NStray *) intros k sy _.
+    assert (ST : forall ctx, stray_ok (ctx_map ctx) (angleify (NStray k sy)) = stray_ok ctx (NStray k sy)).
+    { intros [[k' sy']|]; cbn [ctx_map angleify stray_ok]; [rewrite same_name_angleify|]; reflexivity. }
+    destruct (open_brace_forms k) as (O1 & O2 & O3 & O4 & O5 & O6 & O7 & O8).
+    destruct sy; cbn [btoks angleify angleify_syn print_node angle_node is_brace negb wf_node].
+    1-3: (rewrite render_chars, flat_final_chars;
+          match goal with |- context [close_tag ?k0 ?sy] =>
+            assert (O : lacks 123 (close_tag k0 sy) /\ no_cr (close_tag k0 sy)) by (destruct k0; repeat split) end;
+          destruct O as (Q3 & Q4); repeat split; auto using okc_chars).
+    + cbn [render flat_map render1 final1]. rewrite !app_nil_r. rewrite O2, O4.
+      repeat split; auto; [repeat constructor|destruct k; reflexivity].
+    + cbn [render flat_map render1 final1]. rewrite !app_nil_r. rewrite O6, O8.
+      repeat split; auto; [repeat constructor|destruct k; reflexivity].
+  - (* nil *) intros _. repeat split; auto. constructor.
+  - (* cons *) intros x l IHx IHl Hw. cbn [forallb] in *.
+    apply andb_true_iff in Hw as [Hw1 Hw2].
+    destruct (IHx Hw1) as (A1 & A2 & A3 & A4 & A5 & A6 & A8 & A7).
+    destruct (IHl Hw2) as (B1 & B2 & B3 & B4 & B5 & B6 & B8 & B7).
     cbn [print_nodes btoks_list flat_map angleify_list map forallb items_list].
     fold (btoks_list l). fold (angleify_list l).
     rewrite render_app, flat_map_app, <- A1, <- B1, A3, B3, A4, A5, B4, B5.
     repeat split; auto.
     + apply Forall_app; auto.
     + intro s. rewrite A6, B6. reflexivity.
+    + intro ctx. rewrite A8, B8. reflexivity.
     + apply no_cr_app; auto.
 Qed.
 
-(* C10_tags_scope for one cue, every tag syntax of the grammar except the recorded findings *)
-Theorem markup_payload_good p :
-  forallb markup_node p = true -> forallb wf_node p = true ->
-  has_sub [92;110;92;114] (print_nodes p) = false ->
+(* C10_tags_scope for one cue, every tag syntax of the grammar *)
+Theorem payload_good_all p :
+  forallb wf_node p = true -> forallb (stray_ok None) p = true ->
   payload_good p /\ no_cr (print_nodes p).
 Proof.
-  intros Hm Hw Hb. destruct (markup_tokens p Hm Hw) as (P1 & P2 & P3 & P4 & P5 & P6 & P7). split; auto.
+  intros Hw Hs. destruct (all_tokens p Hw) as (P1 & P2 & P3 & P4 & P5 & P6 & P8 & P7). split; auto.
   unfold payload_good. rewrite P1. rewrite rw_tokens by (auto; rewrite <- P1; auto). rewrite P3.
-  destruct (angle_parse (angleify_list p) P4 P5) as (kids & K1 & K2).
+  assert (S' : forallb (stray_ok None) (angleify_list p) = true) by (rewrite <- Hs; apply (P8 None)).
+  destruct (angle_parse (angleify_list p) P4 P5 S') as (kids & K1 & K2).
   exists kids. split; auto. rewrite K2. apply P6.
 Qed.
 
-Lemma markup_cues_ok f : wf_file f = true -> markup_file f = true -> trigger_backslash f = false ->
-  Forall cue_ok (f_cues f).
+Lemma cues_ok_all f : wf_file f = true -> Forall cue_ok (f_cues f).
 Proof.
-  unfold wf_file, markup_file, trigger_backslash. intros W P T. apply andb_true_iff in W as [_ W].
+  unfold wf_file. intros W. apply andb_true_iff in W as [_ W].
   pose proof (wf_cues_each _ W) as E. clear W.
   induction (f_cues f) as [|c cs IH]; [constructor|].
-  cbn [forallb existsb] in *. apply andb_true_iff in P as [P1 P2]. apply orb_false_iff in T as [T1 T2].
   inversion E; subst. constructor; auto.
-  unfold cue_ok. apply markup_payload_good; auto. apply (w_nodes c H1).
-Qed.
-
-Theorem roundtrip_markup_file f : wf_file f = true -> markup_file f = true ->
-  trigger_backslash f = false -> read_cues_file (print_file f) = Ok (cues f).
-Proof. intros. apply roundtrip_file_any; auto using markup_cues_ok. Qed.
-Theorem roundtrip_markup_lf f : wf_file f = true -> f_crlf f = false -> markup_file f = true ->
-  trigger_backslash f = false -> read_cues (print_file f) = Ok (cues f).
-Proof. intros. apply roundtrip_lf_any; auto using markup_cues_ok. Qed.
-
-Theorem tolerates_markup f f' :
-  wf_file f = true -> wf_file f' = true ->
-  markup_file f = true -> markup_file f' = true -> trigger_backslash f = false -> trigger_backslash f' = false ->
-  Forall2 same_content (f_cues f) (f_cues f') ->
-  read_cues_file (print_file f) = read_cues_file (print_file f') /\ read_cues_file (print_file f) = Ok (cues f).
-Proof.
-  intros. rewrite !roundtrip_markup_file by auto. split; auto. unfold cues. f_equal. apply same_content_cues; auto.
-Qed.
-
-(* the sub-grammar is exactly "no recorded trigger fires": a payload is markup iff it has no short brace tag and no
-   stray closer *)
-Lemma markup_iff_no_trigger f :
-  markup_file f = true <-> (trigger_brace_short f = false /\ trigger_stray_end f = false).
-Proof.
-  unfold markup_file, trigger_brace_short, trigger_stray_end.
-  assert (N : forall l, forallb markup_node l = true <->
-     (existsb (node_has (fun n => match n with NTag _ BraceShort _ | NStray _ BraceShort => true | _ => false end)) l = false /\
-      existsb (node_has (fun n => match n with NStray _ _ => true | _ => false end)) l = false)).
-  { apply (nodes_ind2
-      (fun n => markup_node n = true <->
-         (node_has (fun n => match n with NTag _ BraceShort _ | NStray _ BraceShort => true | _ => false end) n = false /\
-          node_has (fun n => match n with NStray _ _ => true | _ => false end) n = false))
-      (fun l => forallb markup_node l = true <->
-         (existsb (node_has (fun n => match n with NTag _ BraceShort _ | NStray _ BraceShort => true | _ => false end)) l = false /\
-          existsb (node_has (fun n => match n with NStray _ _ => true | _ => false end)) l = false))).
-    - intro c. cbn. tauto.
-    - intro r. cbn. tauto.
-    - cbn. tauto.
-    - intros k sy body IH. rewrite markup_tag.
-      assert (E1 : forall p, node_has p (NTag k sy body) = p (NTag k sy body) || existsb (node_has p) body).
-      { intro p. reflexivity. }
-      rewrite !E1. destruct sy; cbn [negb andb orb]; try (rewrite IH; tauto). split; [discriminate|intros [A _]; discriminate].
-    - intros c q body IH. rewrite markup_font.
-      assert (E1 : forall p, node_has p (NFont c q body) = p (NFont c q body) || existsb (node_has p) body).
-      { intro p. reflexivity. }
-      rewrite !E1. cbn [orb]. exact IH.
-    - intros k sy. cbn. split; [discriminate|]. intros [_ A]. destruct sy; discriminate.
-    - cbn. tauto.
-    - intros x l IHx IHl. cbn [forallb existsb]. rewrite andb_true_iff, !orb_false_iff. tauto. }
-  induction (f_cues f) as [|c cs IH]; [cbn; tauto|].
-  cbn [forallb existsb]. rewrite andb_true_iff, !orb_false_iff. rewrite N. tauto.
+  unfold cue_ok. apply payload_good_all; [apply (w_nodes c H1)|apply (w_stray c H1)].
 Qed.
 
 (* ------------------------------------------------------------------ the statements of Properties/C10.v *)
-Theorem roundtrip_partial f : wf_file f = true ->
-  trigger_brace_short f = false -> trigger_stray_end f = false -> trigger_backslash f = false ->
-  read_cues_file (print_file f) = Ok (cues f).
-Proof. intros W A B C. apply roundtrip_markup_file; auto. apply markup_iff_no_trigger. auto. Qed.
+Theorem roundtrip_file_full f : wf_file f = true -> read_cues_file (print_file f) = Ok (cues f).
+Proof. intros. apply roundtrip_file_any; auto using cues_ok_all. Qed.
 
-Theorem roundtrip_stringio_partial f : wf_file f = true -> f_crlf f = false ->
-  trigger_brace_short f = false -> trigger_stray_end f = false -> trigger_backslash f = false ->
-  read_cues (print_file f) = Ok (cues f).
-Proof. intros W E A B C. apply roundtrip_markup_lf; auto. apply markup_iff_no_trigger. auto. Qed.
+Theorem roundtrip_stream_full f : wf_file f = true -> read_cues (print_file f) = Ok (cues f).
+Proof. intros. apply roundtrip_stream_any; auto using cues_ok_all. Qed.
 
-Theorem tags_scope_partial p :
-  forallb markup_node p = true -> forallb wf_node p = true ->
+Theorem tags_scope p :
+  forallb wf_node p = true -> forallb (stray_ok None) p = true ->
   forallb (fun l => negb (all_ws l)) (payload_lines p) = true ->
-  has_sub [92;110;92;114] (print_nodes p) = false ->
-  exists kids, parse_text true (rewrite_text (print_nodes p)) = Ok kids /\ flat_list st0 kids = items_list st0 p.
+  exists kids, parse_text (rewrite_text (print_nodes p)) = Ok kids /\ flat_list st0 kids = items_list st0 p.
 Proof.
-  intros Hm Hw Hl Hb. destruct (markup_payload_good p Hm Hw Hb) as [G Cr].
+  intros Hw Hs Hl. destruct (payload_good_all p Hw Hs) as [G Cr].
   rewrite rewrite_text_rw. rewrite payload_lines_split in Hl.
   pose proof (strip_lines (print_nodes p) false Cr Hl) as S. cbn iota in S. rewrite app_nil_r in S. rewrite S. exact G.
 Qed.
 
-Theorem tolerates_partial f f' :
-  wf_file f = true -> wf_file f' = true ->
-  trigger_brace_short f = false -> trigger_stray_end f = false -> trigger_backslash f = false ->
-  trigger_brace_short f' = false -> trigger_stray_end f' = false -> trigger_backslash f' = false ->
-  Forall2 same_content (f_cues f) (f_cues f') ->
-  read_cues_file (print_file f) = read_cues_file (print_file f') /\ read_cues_file (print_file f) = Ok (cues f).
-Proof. intros. apply tolerates_markup; auto; apply markup_iff_no_trigger; auto. Qed.
+Theorem tolerates f f' :
+  wf_file f = true -> wf_file f' = true -> Forall2 same_content (f_cues f) (f_cues f') ->
+  read_cues_file (print_file f) = Ok (cues f) /\ read_cues (print_file f) = Ok (cues f) /\
+  read_cues_file (print_file f') = Ok (cues f) /\ read_cues (print_file f') = Ok (cues f).
+Proof.
+  intros W W' S. rewrite !roundtrip_file_full, !roundtrip_stream_full by auto.
+  assert (E : cues f' = cues f) by (unfold cues; symmetry; apply same_content_cues; auto).
+  rewrite E. auto.
+Qed.
